@@ -767,19 +767,10 @@ func assign(n *node) {
 	}
 
 	// Multi assign operation.
-	types := make([]reflect.Type, n.nright)
 	index := make([]int, n.nright)
 	level := make([]int, n.nright)
 
-	for i := range types {
-		var t reflect.Type
-		switch typ := n.child[sbase+i].typ; {
-		case isInterfaceSrc(typ):
-			t = valueInterfaceType
-		default:
-			t = typ.TypeOf()
-		}
-		types[i] = t
+	for i := range index {
 		index[i] = n.child[i].findex
 		level[i] = n.child[i].level
 	}
@@ -794,8 +785,11 @@ func assign(n *node) {
 				if n.child[i].ident == "_" {
 					continue
 				}
-				t[i] = reflect.New(types[i]).Elem()
-				t[i].Set(s(f))
+				// The temporary has the type of the value: the static type of the
+				// source may be an interface, or the untyped nil.
+				v := s(f)
+				t[i] = reflect.New(v.Type()).Elem()
+				t[i].Set(v)
 			}
 			for i := range svalue {
 				if n.child[i].ident == "_" {
@@ -822,8 +816,11 @@ func assign(n *node) {
 			if n.child[i].ident == "_" {
 				continue
 			}
-			t[i] = reflect.New(types[i]).Elem()
-			t[i].Set(s(f))
+			// The temporary has the type of the value: the static type of the
+			// source may be an interface, or the untyped nil.
+			v := s(f)
+			t[i] = reflect.New(v.Type()).Elem()
+			t[i].Set(v)
 		}
 		// The map and key operands of the map entries on the left hand side are
 		// evaluated before any assignment is carried out too.
